@@ -1,0 +1,13 @@
+//go:build verif
+
+// Contracts for package dict, read by /verif/engine (govc). Comment-only.
+
+package dict
+
+//@ func (*Parser).FindAVPWithVendor(p, appid, code, vendorID) (avp, err)
+//@   property C17
+//@   requires p != nil
+//@   modifies
+//@   ensures found: err == nil ==> avp != nil
+//@   ensures placeholder: typeis(code, uint32) ==> avp != nil
+//@ end
